@@ -199,9 +199,22 @@ PROPS = {
         "trusted": ["translator: rule table, constants", "correspondence: Go drivers c08.go/c12.go (worker processes per cache configuration), walkcommon.go, Run/Run_Walk.v, bin/check"],
         "assumptions": ['PARTIAL: scheduler, Go memory model, sync.Pool internals are outside the model; global function registration happens before the goroutines start'],
     },
+    "C15": {
+        "run": "Run.Run_C15",
+        "rule": "(1) every rule that supports a custom message (29 rules incl. required) x messages in ASCII / CJK / mixed with '=', '|', quotes and quoted commas, and one-character messages x entry points (Var, struct field, map entry), with and without a message: the exact clause text is compared with the model's clause_text, and the extractor must give the message back; (2) the extractor on all 120 orders of up to four Chinese-labelled, English-labelled and unlabelled clauses and on random mixes of 5..12 clauses, against the structured specification (explanations in order, joined, none trailing); (3) the extractor on real library errors of synthesised structs, on label / separator soup and on raw bytes, against the model, with recover(). distinct cell = (stream, rule or order, entry, label kind).",
+        "trusted": ["translator: ExplainEn, ExplainZh, ErrEndFlag, IncludeZhRe", "correspondence: Go driver c15.go + walkcommon.go, Run/Run_C15.v, bin/check",
+                    ORACLES + "the oracle-backed rules are driven with answers that make them fail (their verdict is C05's subject)"],
+        "assumptions": ["clean clauses: no separator and no earlier label inside paths, echoes and messages (the text format has no escaping)"],
+    },
 }
 
 LEVELS = {
+    "C15": {
+        "text": "Theorems in Coq: the label is Chinese exactly when the message contains a CJK character of the source's class and English otherwise; a clause whose rule carried message m reads path, echo, label, m verbatim; every rule function that supports a message uses the message of its rule text when there is one and default wording only when there is none; the extractor returns exactly the explanations of the clauses that have one, in order, joined by the separator, for every number and order of Chinese-labelled, English-labelled and unlabelled clean clauses (proved via a lemma that splitting a join of separator-free pieces gives the pieces back).",
+        "design_ref": "DESIGN.md section 5, C15",
+        "note": "Trusted: Coq kernel, translator (labels, separator, CJK class), correspondence harness. The extractor's domain excludes echoes/messages that contain the separator or an earlier label (no escaping exists).",
+        "technique": "Coq proof (string-splitting lemmas for a two-byte separator, per-rule case analysis) + exact-text and extractor correspondence evaluated in Coq",
+    },
     "C08": {
         "text": 'Theorems in Coq: for ANY cache whose loads return nothing or a value stored under that key, every history of lookups over any (type, tag name) keys returns the fresh analysis, and the field loop run on the cached analysis equals the cache-free validation; an always-miss cache, an unbounded map and an LRU of any capacity (0 included) satisfy the hypothesis; the key carries the tag name. The LRU here is the abstract LRU that cache.go refines (C09). Tied by histories over more types than capacity under eight cache configurations.',
         "design_ref": "DESIGN.md section 5, C08",
